@@ -267,7 +267,7 @@ def handleNs (toks : List String) : String :=
         | (.timeout, st') => let (st'', s) := flushUntil bound st' "timeout"; (st'', s :: acc.2))
         (⟨[], [], wscript⟩, [])
       let script := cutChunks cuts wst.wire
-      let (rres, _) := NsSock.readNsMany nsCfg ns arg nreads ⟨[], script⟩
+      let (rres, _) := NsSock.readNsManyI nsCfg ns arg nreads ⟨[], script⟩
       s!"W:{",".intercalate wouts.reverse};{natsToHex wst.wire};{",".intercalate (rres.map showNsRes)}"
     | _, _, _, _, _, _ => "bad-op"
   | _ => "bad-op"
@@ -280,7 +280,7 @@ def handleNsr (toks : List String) : String :=
       let rec go : Nat → St → List String → List String
         | 0, _, acc => acc.reverse
         | k + 1, st, acc =>
-          let (r, st') := ns.readNs nsCfg arg st
+          let (r, st') := ns.readNsI nsCfg arg st
           go k st' (s!"{showNsRes r}/{natsToHex st'.rbuf}" :: acc)
       let outs := go nreads ⟨[], script⟩ []
       if outs.isEmpty then "-" else ",".intercalate outs
